@@ -488,3 +488,49 @@ def binding_selftest(c, trace_module, trace_cfg, trace_path, mutate, tag, timeou
         if ok:
             raise ToolError("binding self-test '%s' on %s: the corrupted trace was ACCEPTED" % (name, trace_module))
         c.notes.append("binding self-test %s/%s: corrupted trace rejected (%s)" % (trace_module, name, json.dumps(verdict.get("why", verdict.get("bad", "?")))[:160]))
+
+
+# --------------------------------------------------------------------------------------
+# Apalache (symbolic, bounded): used for inductive invariants
+
+def run_apalache(module, cinit, init, inv, length, tag, timeout=900):
+    """apalache-mc check on spec/<module>; returns "ok", "violation" or raises ToolError"""
+    out_dir = os.path.join(WORK, tag)
+    shutil.rmtree(out_dir, ignore_errors=True)
+    os.makedirs(out_dir, exist_ok=True)
+    cmd = ["apalache-mc", "check", "--out-dir=%s" % out_dir, "--cinit=%s" % cinit, "--init=%s" % init, "--inv=%s" % inv, "--length=%d" % length, module]
+    t0 = time.time()
+    try:
+        p = subprocess.run(cmd, cwd=SPEC, stdout=subprocess.PIPE, stderr=subprocess.STDOUT, text=True, timeout=timeout)
+    except subprocess.TimeoutExpired:
+        raise ToolError("apalache timeout on %s" % module)
+    finally:
+        shutil.rmtree(out_dir, ignore_errors=True)
+    log("apalache %s init=%s inv=%s length=%d: %.1fs" % (module, init, inv, length, time.time() - t0))
+    if "EXITCODE: OK" in p.stdout:
+        return "ok"
+    if "Checker has found an error" in p.stdout or "EXITCODE: ERROR (12)" in p.stdout:
+        return "violation"
+    sys.stderr.write(p.stdout[-3000:])
+    raise ToolError("apalache failed on %s" % module)
+
+
+# --------------------------------------------------------------------------------------
+# replay of a recorded violation
+
+def replay_file(path, run):
+    """Re-executes the check with the tier and seed recorded in the replay file (all drivers are deterministic
+    functions of the seed) and reports whether the same abstract failing case (key) shows again."""
+    r = json.load(open(path))
+    print(json.dumps({"property": r["property"], "key": r["key"], "what": r["what"], "tier": r["tier"], "seed": r["seed"]}, indent=1))
+    os.environ["VERIF_SEED"] = str(r["seed"])
+    name = hashlib.sha1(r["key"].encode()).hexdigest()[:12] + ".json"
+    target = os.path.join(REPLAYS, r["property"], name)
+    t_start = time.time()
+    rc = run(r["tier"] if r["tier"] in ("quick", "thorough") else "quick")
+    again = rc == 1 and os.path.exists(target) and os.path.getmtime(target) >= t_start - 1
+    if again:
+        fresh = json.load(open(os.path.join(REPLAYS, r["property"], name)))
+        again = fresh.get("key") == r["key"]
+    print("REPLAY %s: the recorded failing case %s" % (r["property"], "shows again" if again else "does not show on the current tree"))
+    return 1 if again else 0
